@@ -90,15 +90,36 @@ def r1(chk, prog):
             nn_edges.append((bid, cfg.succ[bid][0], cfg.succ[bid][1]))
     chk.require(len(nn_edges) == 1, 'formatLine: test for the "nn" token not found')
     nb, nn_true, nn_false = nn_edges[0]
-    normal = path_counts(cfg, nn_false, h, weight)
-    forced = path_counts(cfg, nn_true, h, weight)
-    prefix = path_counts(cfg, body, nb, weight)
-    chk.require(normal is not None and forced is not None and prefix is not None, 'word loop body is not acyclic')
-    chk.check(prefix == {0} and normal == {1}, 'R1', f.name, 'every word is written exactly once per iteration',
-              f.loc(loop), 'emission counts over the paths of one iteration: before the "nn" test %s, '
-              'ordinary word %s' % (sorted(prefix), sorted(normal)))
+
+    def iteration_paths(b, took, onstack):
+        """set of (number of times the word is written, the "nn" edge was taken) over the acyclic block paths of
+        one iteration starting at block b; None if a cycle that does not pass the loop header is met"""
+        if b == h:
+            return {(0, took)}
+        if b in onstack:
+            return None
+        res = set()
+        for s_ in cfg.succs(b):
+            r = iteration_paths(s_, took or (b == nb and s_ == nn_true), onstack | {b})
+            if r is None:
+                return None
+            res |= {(w + weight(b), t) for w, t in r}
+        return res
+    paths = iteration_paths(body, False, frozenset())
+    chk.require(paths is not None, 'word loop body is not acyclic')
+    normal = {w for w, t in paths if not t}
+    forced = {w for w, t in paths if t}
+    chk.check(normal == {1}, 'R1', f.name, 'every word is written exactly once per iteration', f.loc(loop),
+              'emission counts over the paths of one iteration that do not take the "nn" branch: %s' % sorted(normal))
     chk.check(forced == {0}, 'R1', f.name, 'the "nn" token is consumed, not written', f.loc(loop),
               'emission counts on the "nn" path: %s' % sorted(forced))
+    # the word is written only after the "nn" test said no: no emission is reachable inside an iteration without
+    # taking the false edge of that test
+    seen = cfg.reach((body, 0), lambda pos, e: pos[0] == h, blocked_edges={(nb, nn_false)})
+    unguarded = [e for b in {p[0] for p in seen if p[0] != 'exit_from'} for e in cfg.elems(b)
+                 if isinstance(e, int) and e in emits and (b, cfg.elems(b).index(e)) in seen]
+    chk.check(not unguarded, 'R1', f.name, 'a word is written only after it was compared with the "nn" token (the token '
+              'itself is never written)', f.loc(loop), '%d emission(s) reachable without the test' % len(unguarded))
     # no buffering / reordering constructs: the token is only streamed, compared or measured
     uses = set()
     for n in f.walk():
